@@ -155,10 +155,43 @@ def is_noop(spec, op):
     return sp == spec
 
 
+def lean_listop_request(spec, op):
+    """the op as a request to Model D's list model (objects interned as numbers), or None"""
+    kind = op.get("kind")
+    attr = op.get("attr")
+    pool = {n: i + 1 for i, n in enumerate(sorted(set(spec[LINK_TARGET_KIND[attr]])))} if attr in LINK_TARGET_KIND else None
+    if pool is None or kind not in LIST_ATTRS or LIST_ATTRS[kind] != attr:
+        return None, None
+    cur = spec[kind][op["name"]][attr]
+    req = {"cmd": "listop", "content": [pool[x] for x in cur]}
+    if op["op"] == "setlist":
+        req.update(method="assign", xs=[pool[x] for x in op["items"]])
+        return req, pool
+    m, a = op["method"], op.get("args", [])
+    if m in ("iadd", "imul"):
+        return None, None
+    req["method"] = m
+    if m == "append":
+        req["x"] = pool[a[0]]
+    elif m == "insert":
+        req["i"], req["x"] = a[0], pool[a[1]]
+    elif m == "extend":
+        req["xs"] = [pool[x] for x in a[0]]
+    elif m == "pop":
+        req["i"] = a[0] if a else -1
+    elif m == "delitem":
+        req["i"] = a[0]
+    elif m == "setitem":
+        req["i"], req["x"] = a[0], pool[a[1]]
+    elif m == "remove":
+        req["x"] = pool[a[0]]
+    return req, pool
+
+
 def shard(args):
     seed, n_sys, n_ops = args
     rng = random.Random(seed)
-    out = {"systems": 0, "steps": 0, "violations": [], "methods": {}, "samples": [], "hashes": []}
+    out = {"systems": 0, "steps": 0, "violations": [], "methods": {}, "samples": [], "hashes": [], "corr": [], "disagreements": []}
     for i in range(n_sys):
         spec = specgen.gen_safe_spec(rng, realsys.unit_info, allow_delete=False, allow_onprem=False)
         try:
@@ -198,9 +231,19 @@ def shard(args):
                 pass
             ops.append(op)
             out["methods"][label] = out["methods"].get(label, 0) + 1
+            req, pool = lean_listop_request(live.spec, op)
             st, err = live.apply(op)
             out["steps"] += 1
             applied += 1
+            if req is not None:
+                # observation of the real list: content, attachment of the list held by the owner, exception class
+                owner = live.rs.objs[op["name"]]
+                lst = owner.__dict__.get(op["attr"])
+                inv = {o.id: n for n, o in live.rs.objs.items()}
+                real_content = [pool.get(inv.get(e.id)) for e in lst]
+                real_att = lst.modeling_obj_container is not None
+                real_err = None if st == "ok" else {"other:IndexError": "IndexError", "other:ValueError": "ValueError", "other:AttributeError": "AttributeError"}.get(err, err)
+                out["corr"].append((req, {"content": real_content, "attached": real_att, "err": real_err}, {"spec": spec, "ops": list(ops)}))
             trig = "no-op" if noop else ("python-raises" if py != "ok" else "effective")
             if py != "ok":
                 # a plain list raises: the linked list must raise the same class and change nothing
@@ -241,4 +284,14 @@ def shard(args):
         out["hashes"].append(sysoracles_hash(spec, ops))
         if len(out["samples"]) < 1:
             out["samples"].append({"ops": [o.get("method", o["op"]) + ":" + o.get("attr", "") + str(o.get("args", o.get("items", o.get("target", "")))) for o in ops]})
+    if out["corr"]:
+        from harness.common import run_lean
+        answers = run_lean([c[0] for c in out["corr"]])
+        for (req, real, rep), ans in zip(out["corr"], answers):
+            if "bad" in ans:
+                out["disagreements"].append({"why": "driver: " + ans["bad"], "replay": rep})
+            elif (ans["content"], ans["attached"], ans["err"]) != (real["content"], real["attached"], real["err"]):
+                out["disagreements"].append({"why": f"{req['method']} on {req['content']}: model content {ans['content']} attached {ans['attached']} err {ans['err']}; "
+                                                    f"real content {real['content']} attached {real['attached']} err {real['err']}", "replay": rep})
+    out["corr"] = len(out["corr"])
     return out
